@@ -363,6 +363,20 @@ def check(repo: Repo, run: Run) -> None:
                     post.append((e_, pipeline.conjuncts(cd_), s))
                     post.append((e_, frozenset(pipeline.conjuncts(cd_) | class_stage_cj), s))
     run.floor("R2", "helper classes added by traces()", len(additions), 2)
+
+    def _opaque_condition(cj_) -> Optional[str]:
+        # a condition that calls a method of the facade the interpreter did not interpret in place (a loop with an early
+        # return, ...): what it tests is not visible here
+        for c_ in cj_:
+            for x in sym.walk(c_):
+                if x.op == "call" and x.a[0].op == "attr" and x.a[0].a[0] == SELF:
+                    return sym.pretty(x)[:60]
+        return None
+    opaque_conditions = sorted({o for _, cj_, _ in additions for o in [_opaque_condition(cj_)] if o})
+    if opaque_conditions:
+        run.floor_failures.append(f"C13/R2: a helper class is added under a condition computed by {opaque_conditions[0]}, a method "
+                                  f"that is not interpreted in place: whether it is the specified condition is not decided")
+        additions = [a_ for a_ in additions if _opaque_condition(a_[1]) is None]
     for k, cj, how in additions:
         m = [p for p in post if p[0] == k]
         ok = bool(m) and any(p[1] == cj for p in m)
@@ -376,7 +390,10 @@ def check(repo: Repo, run: Run) -> None:
         run.ob("R2", MOD, "traces", f"helper class {sym.pretty(k)}: only when not requested", requested_guard in cj,
                f"class {sym.pretty(k)} is treated as a helper even when the caller requested it "
                f"(condition lacks `{sym.pretty(k)} not in filter_class`)", line=fn.lineno)
+    deferred_classes = set()
     for k, cj, s in post:
+        if opaque_conditions and not any(a[0] == k for a in additions):
+            continue            # (its addition was deferred above)
         ok = any(a[0] == k for a in additions)
         run.ob("R2", MOD, "traces", f"post-filter class != {sym.pretty(k)} has a helper", ok,
                "" if ok else f"traces of class {sym.pretty(k)} are removed from the output although the tool did not add "
@@ -394,6 +411,8 @@ def check(repo: Repo, run: Run) -> None:
     }
     for k, want in spec.items():
         got = [cj for kk, cj, _ in additions if kk == k]
+        if not got and opaque_conditions:
+            continue            # (deferred above: its condition is computed by a method that was not followed)
         ok = len(got) == 1 and got[0] == want
         nm = {TR: "DBG_TRACE (kernel trace strings)", FS: "DBG_FSYSTEM (file-system lookups)"}[k]
         run.ob("R3", MOD, "traces", f"helper {nm}: condition", ok,
